@@ -24,6 +24,8 @@ def _pi(name):
     P.add("contact_point", value=0)
     if name == "PB":
         P["E"].set(vary=False)
+    if name == "PC":
+        P["contact_point"].set(value=1e-9)     # tiny in SI units
     return P
 
 
@@ -32,7 +34,8 @@ DOMAIN = collections.OrderedDict([
     ("model_key", [lambda: "hertz_para", lambda: "hertz_cone"]),
     ("optimal_fit_edelta", [lambda: False, lambda: True]),
     ("optimal_fit_num_samples", [lambda: 100, lambda: 7]),
-    ("params_initial", [lambda: None, lambda: _pi("PA"), lambda: _pi("PB")]),
+    ("params_initial", [lambda: None, lambda: _pi("PA"), lambda: _pi("PB"),
+                        lambda: _pi("PC")]),
     ("preprocessing", [lambda: [], lambda: ["compute_tip_position"]]),
     ("preprocessing_options", [lambda: {}, lambda: {
         "correct_tip_offset": {"method": "fit_constant_line"}}]),
